@@ -187,8 +187,14 @@ def parseAcc (t : Tables) (mod : String) (j : Json) : R (Acc JJ VV) := do
 
 def parseModule (t : Tables) (j : Json) : R (Module JJ VV) := do
   let name ← fldStr j "name"
+  let mro ← match j.getObjVal? "mro" with
+    | .error _ => pure []
+    | .ok a => (← arr a).mapM (fun row => do
+        match ← arr row with
+        | [.str c, .bool f] => return (ClassInfo.mk c f)
+        | _ => throw "bad mro entry")
   return { name, exported := ← fldBool j "exported", accs := ← (← fldArr j "accs").mapM (parseAcc t name),
-           props := ← parseProps j }
+           props := ← parseProps j, mro }
 
 def parseNode (t : Tables) (j : Json) : R (Node JJ VV) := do (← fldArr j "modules").mapM (parseModule t)
 
